@@ -911,11 +911,35 @@ def install(m):
 
     # ------------------------------------------------------------------ JSON (sonic / encoding/json): uninterpreted
     def json_marshal(m, alt, fr, ins, args, work):
-        return (Opaque(("json", "marshal")), None)
+        # uninterpreted text carrying the marshalled value: a one-element byte slice whose element is the payload
+        payload = Opaque(("json", args[0]))
+        obj = m.new_obj(alt, (payload,), disc=1)
+        return (Slice(obj, (), 0, 1, 1), None)
+
+    def json_payload(m, alt, src):
+        if type(src) is Opaque:
+            return src
+        if type(src) is Slice and src.obj is not None and type(src.len) is int and src.len == 1:
+            e = nav(m.hget(alt, src.obj), src.path)[src.off]
+            if type(e) is Opaque:
+                return e
+        return None
 
     def json_unmarshal(m, alt, fr, ins, args, work):
-        src = args[0]
-        if type(src) is Opaque and type(src.what) is tuple and src.what[0] == "json":
+        pl = json_payload(m, alt, args[0])
+        if pl is not None and type(pl.what) is tuple and pl.what[0] == "json":
+            # contract Unmarshal(Marshal(v), &x) = v for a target of v's own type (plain structs of scalars/arrays);
+            # other targets: nothing is written (content fidelity of arrays/objects is not modelled)
+            v, dst = pl.what[1], args[1]
+            if type(v) is Iface and type(dst) is Iface and type(dst.v) is Ptr and not v.t.startswith("$") and not dst.t.startswith("$"):
+                td = m.T(dst.t)
+                if td.get("kind") == "pointer":
+                    if td.get("elem") == v.t:
+                        m.store(alt, dst.v, v.v)
+                    else:
+                        tv = m.T(v.t)
+                        if tv.get("kind") == "pointer" and tv.get("elem") == td.get("elem") and type(v.v) is Ptr:
+                            m.store(alt, dst.v, m.load(alt, v.v))
             return None
         # text that did not come from Marshal: well-formedness is not modelled -> either outcome
         ok = m.nondet("json.Unmarshal.ok", "bool")
